@@ -278,3 +278,5 @@ PROPS["C15"]["rule"] += (" Half of the injected close failures on disk also lose
 for _p, _names in (("C09", ["wired-process"]), ("C14", ["walk-interleaved-with-writes"]), ("C13", ["root-parent-survived-write-path"]), ("C08", ["workspace-fault-reported"])):
     for _tier in ("quick", "thorough"):
         PROPS[_p]["probes_expected"][_tier] = PROPS[_p]["probes_expected"][_tier] + _names
+PROPS["C15"]["rule"] += (" A third of the cases also enumerate SOURCE positions (opening a source object fails; its k-th chunk fails while the destination object is half written); part B has a"
+                         " source-read variant of the atomic copy (the only failure is one read error on the source; violations there carry the signature namespace source-read).")
